@@ -290,7 +290,39 @@ def _mutation(kind, s, i, flag):
         return ChangeMeta('M', 'constraints', [{'type': models.UniqueConstraint, 'name': 'uc',
                                                 'fields': ('a',),
                                                 'deferrable': Deferrable.DEFERRED}])
+    if kind == 16:
+        return AddField('M', 'c', CUSTOM_FIELDS[0], initial=ival)
+    if kind == 17:
+        return ChangeField('M', 'b', field_type=CUSTOM_FIELDS[1], initial=ival, null=flag)
     return AddField('M', 'c', models.ManyToManyField, related_model='app.N', db_table=sval or None)
+
+
+# project-defined field classes living in ordinary modules (one of them under a path that merely
+# contains '.db.models'): the evolution file has to import them by name
+import sys as _sys
+import types as _types
+
+
+def _install_custom_fields():
+    out = []
+    for modname, clsname in (('vproj.db.models.fields', 'QuantityField'), ('vother.fields', 'ColourField')):
+        parts = modname.split('.')
+        for n in range(1, len(parts) + 1):
+            name = '.'.join(parts[:n])
+            if name not in _sys.modules:
+                m = _types.ModuleType(name)
+                m.__path__ = []
+                _sys.modules[name] = m
+                if n > 1:
+                    setattr(_sys.modules['.'.join(parts[:n - 1])], parts[n - 1], m)
+        mod = _sys.modules[modname]
+        cls = type(clsname, (models.IntegerField,), {'__module__': modname})
+        setattr(mod, clsname, cls)
+        out.append(cls)
+    return out
+
+
+CUSTOM_FIELDS = _install_custom_fields()
 
 
 def _content(muts):
@@ -311,7 +343,7 @@ def _sim(muts):
 
 def h_content(k0: int, k1: int, s: int, i: int, flag: bool, two: bool) -> bool:
     """
-    pre: 0 <= k0 <= 15 and 0 <= k1 <= 15 and 0 <= s <= 9 and 0 <= i <= 3
+    pre: 0 <= k0 <= 17 and 0 <= k1 <= 17 and 0 <= s <= 9 and 0 <= i <= 3
     pre: two or k1 == 0
     pre: hx.in_part(k0)
     pre: not hx.excluded(k0, k1, s, i, flag, two)
